@@ -45,12 +45,17 @@
   attempt, induction on the loop's fuel, `runCall` vs `runExecute`), `Lemmas/SimPolicy{,2,3}.lean` (the
   policy wrappers: breaker admission, what each wrapper does with the loop's result, `ensure_settled`).
 
-  T3 (`pcall_pexecute_agree`, below) and T4 (`async_irrelevant`) have their own headers further down.
-  Not proved: T3 for `hasRetry = false` (the no-retry branch), T2 (Policy without breaker vs Retry), and
-  the general form of T3 in which execute() runs on the world with the breaker-classification answer
-  removed (see the T3 header).
+  T3 (`pcall_pexecute_agree`), T3-NR (`pcall_pexecute_agree_nr`, retry-less policies; `Lemmas/SimPolicyNR.lean`),
+  T2 (`pcall_eq_call`, `pexecute_eq_execute`, `pcall_vs_retry_call`, `pexecute_vs_retry_execute`: a Policy
+  without a breaker vs its Retry; `Lemmas/SimPolicyNB.lean`, `SimXc.lean`) and T4 (`async_irrelevant`,
+  `async_irrelevant_policy`, `async_irrelevant_policy_log`; `Lemmas/SimAsync.lean`, `SimCanc.lean`) have their
+  own headers further down.
+  Not proved: the general form of T3 in which execute() runs on the world with the breaker-classification
+  answer removed (see the T3 header).
 -/
-import Redress.Lemmas.SimPolicy3
+import Redress.Lemmas.SimAsync
+import Redress.Lemmas.SimXc
+import Redress.Lemmas.SimCanc
 
 namespace Redress.Props.C12
 
@@ -370,6 +375,304 @@ theorem pcall_pexecute_agree (cfg : Cfg) (w : World)
       exact ⟨hp.trace, hp.now, hp.budget, hp.breaker, hp.rs, hp.xc, hp.opCalls,
         by simp [toRes, toResO, dr_raised]⟩
 
+/-! ### T3-NR: `Policy.call` vs `Policy.execute` without a retry loop (`cfg.hasRetry = false`)
+
+Both wrappers run from the same world and — under the hypotheses — do exactly the same things in the same
+order, so the conclusion is EQUALITY of the two final worlds (log, clock, answers, breaker, budget, …) and
+`deliverRelated` results.  What has to be excluded (model = code; found while proving unless marked):
+  * `hend` — the call-level `on_attempt_end` hook.  The two paths call it at different moments:
+    call() runs it BEFORE `record_success` / `record_failure` / `record_cancel` and inside its `try`,
+    execute() AFTER them and (on success) outside any `try`.  So (a) with a breaker that emits an event, or
+    a hook that takes time, the oracle answers / the clock seen by the breaker differ; (b) a hook that
+    raises after a successful operation makes call() record a FAILURE (or a cancel) on the breaker via its
+    ladder while execute() has already recorded SUCCESS; (c) for `RetryExhaustedError` and circuit-open
+    kinds call() does not run the hook at all, execute() does.  The start hook is harmless (both paths run
+    it first and treat its exception like the operation's), so `cAttemptStart` is not restricted;
+  * `LadderOK` for whatever the operation (or the start hook) raises: not the library's own
+    `RuntimeError` / `CircuitOpenError(state)` / `RetryExhaustedError(...)` objects (`deliverRelated` has
+    dedicated clauses for them); a circuit-open kind only without a breaker (F12: call() → nothing, then
+    cancel; execute() → failure); a `RetryExhaustedError` only without a breaker or with `last_class`
+    unset / UNKNOWN (F13: call() records `exc.last_class`, execute() `default_classifier(exc)` = UNKNOWN);
+  * `hhook` — as in T3: call() runs `record_success()` inside its `try`, so a hook raising a
+    BaseException-only kind on the `circuit_closed` event gives call() an extra `record_cancel`. -/
+
+/-- **T3-NR (C12, Policy.call() vs Policy.execute(), retry-less policies).** -/
+theorem pcall_pexecute_agree_nr (cfg : Cfg) (w : World)
+    (hret : cfg.hasRetry = false) (hend : cfg.cAttemptEnd = false)
+    (hlad : ∀ x ∈ (runEntry cfg .pcall w).2.trace, entersLadder x.1 = true →
+      ∀ e d, x.2 = .raise e d → LadderOK cfg e)
+    (hhook : HookOK (runEntry cfg .pcall w).2.trace) :
+    (runEntry cfg .pexecute w).2 = (runEntry cfg .pcall w).2 ∧
+    Twin.deliverRelated (runEntry cfg .pcall w).1 (runEntry cfg .pexecute w).1 = true := by
+  have hA : runEntry cfg .pcall w
+      = toRes (Policy.call cfg { w with trace := [], timeline := [], opCalls := 0 }) := rfl
+  have hB : runEntry cfg .pexecute w = toResO (cfg.timeline && cfg.hasRetry)
+      (Policy.execute cfg { w with trace := [], timeline := [], opCalls := 0 }) := rfl
+  rw [hA, policy_run_call] at hlad hhook
+  rw [hA, hB, policy_run_call, policy_run_execute]
+  generalize ({ w with trace := [], timeline := [], opCalls := 0 } : World) = w0 at *
+  generalize ({ w0 with xc := { start := w0.now } } : World) = w1 at *
+  have key := admitted_nr hret hend w1
+  cases hra : Policy.callAdmitted cfg w1 with
+  | ok v wa =>
+    rw [hra] at hlad hhook key
+    have hk := key ⟨fun x hx => hlad x (settle_grows cfg wa x hx), hhook.mono (settle_grows cfg wa)⟩
+    cases hrb : Policy.executeAdmitted cfg w1 with
+    | error e wb => rw [hrb] at hk; exact hk.elim
+    | ok o wb =>
+      rw [hrb] at hk
+      obtain ⟨hw, hd⟩ := hk
+      subst hw
+      exact ⟨rfl, by simp only [toRes, toResO]; rw [dr_tl]; exact hd⟩
+  | error e wa =>
+    rw [hra] at hlad hhook key
+    have hk := key ⟨fun x hx => hlad x (settle_grows cfg wa x hx), hhook.mono (settle_grows cfg wa)⟩
+    cases hrb : Policy.executeAdmitted cfg w1 with
+    | ok o wb =>
+      rw [hrb] at hk
+      obtain ⟨hw, hd⟩ := hk
+      subst hw
+      exact ⟨rfl, by simp only [toRes, toResO]; rw [dr_tl]; exact hd⟩
+    | error e' wb =>
+      rw [hrb] at hk
+      obtain ⟨hw, he'⟩ := hk
+      subst hw he'
+      exact ⟨rfl, by simp [toRes, toResO, dr_raised]⟩
+
+/-- T3-NR in the shape of T3: projected logs, clock, budget, breaker, `ExecutionContext` -/
+theorem pcall_pexecute_agree_nr' (cfg : Cfg) (w : World)
+    (hret : cfg.hasRetry = false) (hend : cfg.cAttemptEnd = false)
+    (hlad : ∀ x ∈ (runEntry cfg .pcall w).2.trace, entersLadder x.1 = true →
+      ∀ e d, x.2 = .raise e d → LadderOK cfg e)
+    (hhook : HookOK (runEntry cfg .pcall w).2.trace) :
+    let rc := runEntry cfg .pcall w
+    let re := runEntry cfg .pexecute w
+    Twin.projC12 re.2.trace = Twin.projC12 rc.2.trace ∧ re.2.trace = rc.2.trace ∧ re.2.answers = rc.2.answers ∧
+    re.2.now = rc.2.now ∧ re.2.budget = rc.2.budget ∧ re.2.breaker = rc.2.breaker ∧ re.2.xc = rc.2.xc ∧
+    Twin.deliverRelated rc.1 re.1 = true := by
+  intro rc re
+  obtain ⟨h1, h2⟩ := pcall_pexecute_agree_nr cfg w hret hend hlad hhook
+  have h1' : re.2 = rc.2 := h1
+  rw [h1']
+  exact ⟨rfl, rfl, rfl, rfl, rfl, rfl, rfl, h2⟩
+
+/-- `LadderOK` is satisfiable by the interesting kinds: an ordinary exception, an abort, a
+    `RetryExhaustedError` without `last_class`, KeyboardInterrupt — with any breaker -/
+example (cfg : Cfg) : LadderOK cfg (.ordinary 1 .transient) ∧ LadderOK cfg (.abort 2) ∧
+    LadderOK cfg (.exhausted 3 none) ∧ LadderOK cfg .keyboardInterrupt := by
+  refine ⟨?_, ?_, ?_, ?_⟩ <;>
+    exact ⟨(fun h => by cases h), (fun h => by cases h), (fun _ h => by cases h),
+      (fun _ => by first | exact Or.inr rfl | contradiction)⟩
+
+/-! ### T2: a Policy without a breaker does what its Retry does (`cfg.breaker = none`, `cfg.hasRetry = true`)
+
+Exact equations, no environment hypotheses.  The only difference: when the retry loop ends by RAISING an
+`Exception` that is neither an abort, nor a `RetryExhaustedError`, nor a circuit-open kind
+(`needsBreakerClass e`), both `Policy.call` and `Policy.execute` classify it once more
+(`_handle_exception_call` → `classify_for_breaker`, although there is no breaker): one more `classify`
+exchange at the end of the log, and if that classifier call itself fails, its exception replaces the
+original one (`classifyAgain`).  `Retry.call/execute` start from whatever `ExecutionContext` the world
+holds (they never look at it); `Policy.*` creates a fresh one, hence `xc := { start := w.now }` on the right. -/
+
+/-- **T2 (call)**. -/
+theorem pcall_eq_call (cfg : Cfg) (w : World) (hret : cfg.hasRetry = true) (hb : cfg.breaker = none) :
+    runEntry cfg .pcall w =
+      (match runEntry cfg .call { w with xc := { start := w.now } } with
+       | (Res.raised e, w') =>
+         if needsBreakerClass e = true then (Res.raised (classifyAgain e w').1, (classifyAgain e w').2)
+         else (Res.raised e, w')
+       | r => r) := by
+  show toRes (Policy.call cfg { w with trace := [], timeline := [], opCalls := 0 }) = _
+  rw [policyCall_nb hret hb]
+  show _ = (match toRes (runCall cfg
+      { w with trace := [], timeline := [], opCalls := 0, xc := { start := w.now } }) with
+    | (Res.raised e, w') =>
+      if needsBreakerClass e = true then (Res.raised (classifyAgain e w').1, (classifyAgain e w').2)
+      else (Res.raised e, w')
+    | r => r)
+  cases runCall cfg { w with trace := [], timeline := [], opCalls := 0, xc := { start := w.now } } with
+  | ok v wa => rfl
+  | error e wa =>
+    simp only [toRes]
+    rw [callLadder_nb hret hb]
+    by_cases hn : needsBreakerClass e = true
+    · rw [if_pos hn, if_pos hn]
+    · rw [if_neg hn, if_neg hn]
+
+/-- **T2 (execute)**. -/
+theorem pexecute_eq_execute (cfg : Cfg) (w : World) (hret : cfg.hasRetry = true) (hb : cfg.breaker = none) :
+    runEntry cfg .pexecute w =
+      (match runEntry cfg .execute { w with xc := { start := w.now } } with
+       | (Res.raised e, w') =>
+         if needsBreakerClass e = true then (Res.raised (classifyAgain e w').1, (classifyAgain e w').2)
+         else (Res.raised e, w')
+       | r => r) := by
+  show toResO (cfg.timeline && cfg.hasRetry)
+    (Policy.execute cfg { w with trace := [], timeline := [], opCalls := 0 }) = _
+  rw [policyExecute_nb hret hb, hret, Bool.and_true]
+  show _ = (match toResO cfg.timeline (runExecute cfg
+      { w with trace := [], timeline := [], opCalls := 0, xc := { start := w.now } }) with
+    | (Res.raised e, w') =>
+      if needsBreakerClass e = true then (Res.raised (classifyAgain e w').1, (classifyAgain e w').2)
+      else (Res.raised e, w')
+    | r => r)
+  cases runExecute cfg { w with trace := [], timeline := [], opCalls := 0, xc := { start := w.now } } with
+  | ok o wb => rfl
+  | error e wb =>
+    simp only [toResO]
+    rw [executeLadder_nb hret hb]
+    by_cases hn : needsBreakerClass e = true
+    · rw [if_pos hn, if_pos hn]
+    · rw [if_neg hn, if_neg hn]
+
+/-- whenever `Retry.execute` returns an outcome (it raises only what a callback raised in the handler
+    region, BaseException-only kinds, …), `Policy.execute` is the same run: identical result, log, state -/
+theorem pexecute_same_outcome (cfg : Cfg) (w : World) (hret : cfg.hasRetry = true) (hb : cfg.breaker = none)
+    (o : Outcome) (t : List TimelineEv)
+    (h : (runEntry cfg .execute { w with xc := { start := w.now } }).1 = .outcome o t) :
+    runEntry cfg .pexecute w = runEntry cfg .execute { w with xc := { start := w.now } } := by
+  rw [pexecute_eq_execute cfg w hret hb]
+  generalize runEntry cfg .execute { w with xc := { start := w.now } } = r at h ⊢
+  obtain ⟨r1, r2⟩ := r
+  simp only at h
+  subst h
+  rfl
+
+/-- `Policy.call` returns / raises what `Retry.call` does, with the same log, unless the loop raised an
+    exception that gets classified for the breaker -/
+theorem pcall_same (cfg : Cfg) (w : World) (hret : cfg.hasRetry = true) (hb : cfg.breaker = none)
+    (h : ∀ e, (runEntry cfg .call { w with xc := { start := w.now } }).1 = .raised e →
+      needsBreakerClass e = false) :
+    runEntry cfg .pcall w = runEntry cfg .call { w with xc := { start := w.now } } := by
+  rw [pcall_eq_call cfg w hret hb]
+  generalize runEntry cfg .call { w with xc := { start := w.now } } = r at h ⊢
+  obtain ⟨r1, r2⟩ := r
+  cases r1 with
+  | raised e =>
+    simp only
+    rw [h e rfl]
+    simp
+  | _ => rfl
+
+/-- in every case: the same `_RetryState`, budget, breaker, operation count and C12-projection of the log;
+    the log itself is the Retry's log plus at most one `classify` exchange; the result is the same
+    provided that extra classifier call (if any) returns a class -/
+theorem pcall_vs_call (cfg : Cfg) (w : World) (hret : cfg.hasRetry = true) (hb : cfg.breaker = none) :
+    let rp := runEntry cfg .pcall w
+    let rc := runEntry cfg .call { w with xc := { start := w.now } }
+    rp.2.rs = rc.2.rs ∧ rp.2.budget = rc.2.budget ∧ rp.2.breaker = rc.2.breaker ∧
+    rp.2.opCalls = rc.2.opCalls ∧ rp.2.xc = rc.2.xc ∧
+    Twin.projC12 rp.2.trace = Twin.projC12 rc.2.trace ∧
+    (rp = rc ∨ ∃ e a, rc.1 = .raised e ∧ needsBreakerClass e = true ∧
+      rp.2.trace = (.classify e.ref, a) :: rc.2.trace ∧ rp.2.now = rc.2.now + a.dur ∧
+      ((∃ c d, a = .klass c d) → rp.1 = rc.1)) := by
+  intro rp rc
+  have h := pcall_eq_call cfg w hret hb
+  show rp.2.rs = rc.2.rs ∧ _
+  have hrp : rp = runEntry cfg .pcall w := rfl
+  rw [← hrp] at h
+  generalize hrc : rc = r at h ⊢
+  have : runEntry cfg .call { w with xc := { start := w.now } } = r := hrc
+  rw [this] at h
+  obtain ⟨r1, r2⟩ := r
+  cases r1 with
+  | raised e =>
+    simp only at h
+    by_cases hn : needsBreakerClass e = true
+    · rw [if_pos hn] at h
+      obtain ⟨a, h1, h2, h3, h4, h5, h6, h7, h8⟩ := classifyAgain_spec e r2
+      rw [h]
+      refine ⟨h2, h3, h4, h5, h6, ?_, Or.inr ⟨e, a, rfl, hn, h1, h7, fun hk => by rw [h8 hk]⟩⟩
+      show Twin.projC12 (classifyAgain e r2).2.trace = _
+      rw [h1, projC12_cons]
+      rfl
+    · rw [if_neg hn] at h
+      rw [h]
+      exact ⟨rfl, rfl, rfl, rfl, rfl, rfl, Or.inl rfl⟩
+  | ret v => rw [h]; exact ⟨rfl, rfl, rfl, rfl, rfl, rfl, Or.inl rfl⟩
+  | outcome o t => rw [h]; exact ⟨rfl, rfl, rfl, rfl, rfl, rfl, Or.inl rfl⟩
+
+/-! #### …and the `ExecutionContext` the world happens to hold is irrelevant to `Retry.call/execute`
+
+(`Lemmas/SimXc.lean`: every procedure of the loop commutes with replacing `World.xc`), so T2 can be stated
+against `runEntry cfg .call w` itself. -/
+
+theorem call_xc (cfg : Cfg) (w : World) (c : XCtx) :
+    runEntry cfg .call { w with xc := c }
+      = ((runEntry cfg .call w).1, { (runEntry cfg .call w).2 with xc := c }) := by
+  show toRes (runCall cfg (θ c { w with trace := [], timeline := [], opCalls := 0 })) = _
+  rw [(runCall_xq (xc0 := c) cfg).eq]
+  show _ = ((toRes (runCall cfg { w with trace := [], timeline := [], opCalls := 0 })).1,
+    θ c (toRes (runCall cfg { w with trace := [], timeline := [], opCalls := 0 })).2)
+  cases runCall cfg { w with trace := [], timeline := [], opCalls := 0 } <;> rfl
+
+theorem execute_xc (cfg : Cfg) (w : World) (c : XCtx) :
+    runEntry cfg .execute { w with xc := c }
+      = ((runEntry cfg .execute w).1, { (runEntry cfg .execute w).2 with xc := c }) := by
+  show toResO cfg.timeline (runExecute cfg (θ c { w with trace := [], timeline := [], opCalls := 0 })) = _
+  rw [(runExecute_xq (xc0 := c) cfg).eq]
+  show _ = ((toResO cfg.timeline (runExecute cfg { w with trace := [], timeline := [], opCalls := 0 })).1,
+    θ c (toResO cfg.timeline (runExecute cfg { w with trace := [], timeline := [], opCalls := 0 })).2)
+  cases runExecute cfg { w with trace := [], timeline := [], opCalls := 0 } <;> rfl
+
+/-- **T2 (call), against `Retry.call` on the same world**: same `_RetryState`, budget, breaker, operation
+    count, the same log up to one trailing `classify` exchange (present exactly when `Retry.call` raised
+    an exception `e` with `needsBreakerClass e`), and the same result provided that classifier call (if
+    any) returns a class. -/
+theorem pcall_vs_retry_call (cfg : Cfg) (w : World) (hret : cfg.hasRetry = true) (hb : cfg.breaker = none) :
+    let rp := runEntry cfg .pcall w
+    let rc := runEntry cfg .call w
+    rp.2.rs = rc.2.rs ∧ rp.2.budget = rc.2.budget ∧ rp.2.breaker = rc.2.breaker ∧
+    rp.2.opCalls = rc.2.opCalls ∧ Twin.projC12 rp.2.trace = Twin.projC12 rc.2.trace ∧
+    ((rp.1 = rc.1 ∧ rp.2.trace = rc.2.trace ∧ rp.2.answers = rc.2.answers ∧ rp.2.now = rc.2.now ∧
+        ∀ e, rc.1 = .raised e → needsBreakerClass e = false) ∨
+     ∃ e a, rc.1 = .raised e ∧ needsBreakerClass e = true ∧
+      rp.2.trace = (.classify e.ref, a) :: rc.2.trace ∧ rp.2.now = rc.2.now + a.dur ∧
+      ((∃ c d, a = .klass c d) → rp.1 = rc.1)) := by
+  intro rp rc
+  have h := pcall_eq_call cfg w hret hb
+  rw [call_xc] at h
+  have hrp : runEntry cfg .pcall w = rp := rfl
+  have hrc : runEntry cfg .call w = rc := rfl
+  rw [hrp, hrc] at h
+  obtain ⟨r1, r2⟩ := rc
+  cases r1 with
+  | raised e =>
+    simp only at h
+    by_cases hn : needsBreakerClass e = true
+    · rw [if_pos hn] at h
+      obtain ⟨a, h1, h2, h3, h4, h5, h6, h7, h8⟩ :=
+        classifyAgain_spec e { r2 with xc := { start := w.now } }
+      rw [h]
+      refine ⟨h2, h3, h4, h5, ?_, Or.inr ⟨e, a, rfl, hn, h1, h7, fun hk => by rw [h8 hk]⟩⟩
+      show Twin.projC12 (classifyAgain e { r2 with xc := { start := w.now } }).2.trace = _
+      rw [h1, projC12_cons]
+      rfl
+    · rw [if_neg hn] at h
+      rw [h]
+      refine ⟨rfl, rfl, rfl, rfl, rfl, Or.inl ⟨rfl, rfl, rfl, rfl, ?_⟩⟩
+      intro e' he'
+      injection he' with he'
+      subst he'
+      simpa using hn
+  | ret v =>
+    rw [h]
+    exact ⟨rfl, rfl, rfl, rfl, rfl, Or.inl ⟨rfl, rfl, rfl, rfl, fun e he => by cases he⟩⟩
+  | outcome o t =>
+    rw [h]
+    exact ⟨rfl, rfl, rfl, rfl, rfl, Or.inl ⟨rfl, rfl, rfl, rfl, fun e he => by cases he⟩⟩
+
+/-- **T2 (execute), against `Retry.execute` on the same world**: whenever `Retry.execute` returns an
+    outcome, `Policy.execute` returns the same outcome (and timeline) with the identical log and state
+    (but for the `ExecutionContext` it created) -/
+theorem pexecute_vs_retry_execute (cfg : Cfg) (w : World) (hret : cfg.hasRetry = true)
+    (hb : cfg.breaker = none) (o : Outcome) (t : List TimelineEv)
+    (h : (runEntry cfg .execute w).1 = .outcome o t) :
+    runEntry cfg .pexecute w
+      = (.outcome o t, { (runEntry cfg .execute w).2 with xc := { start := w.now } }) := by
+  have h1 := pexecute_same_outcome cfg w hret hb o t (by rw [execute_xc]; exact h)
+  rw [h1, execute_xc, h]
+
 /-! ### T4 (Retry level): sync and async entry points are the same model function
 
 The async runner differs from the sync one only by `await` and, at the Policy level, by the extra
@@ -419,6 +722,122 @@ theorem async_irrelevant (cfg : Cfg) (b : Bool) (w : World) :
     rw [runCall_async]
   · show toResO cfg.timeline ((runExecute { cfg with isAsync := b }).run _) = toResO cfg.timeline ((runExecute cfg).run _)
     rw [runExecute_async]
+
+/-! ### T4 for the policy entries
+
+`cfg.isAsync` is read only by the `except` ladders of `Policy.call` and `_execute_without_retry`
+(`except asyncio.CancelledError: record_cancel(); raise`).  When a `CancelledError` reaches such a ladder
+the call ends by raising it — in both flavours; they then differ only in WHEN the cancel is recorded
+(at once / by `ensure_settled`), which is observable when the breaker was already settled (e.g. the
+`circuit_closed` hook raised the CancelledError after `record_success`).  So: unless the call ends by
+raising `CancelledError`, the sync and the async policy are the same function
+(`async_irrelevant_policy`).  A run whose log contains no exchange answered `raise cancelled` cannot end
+that way (`cancelled_comes_from_log`, from `Lemmas/SimCanc.lean`), which gives the statement about the
+log (`async_irrelevant_policy_log`); the result-based hypothesis is the weaker one. -/
+
+theorem settle_async (cfg : Cfg) (b : Bool) (w : World) : settle { cfg with isAsync := b } w = settle cfg w := rfl
+
+/-- **T4 (policy level)**. -/
+theorem async_irrelevant_policy (cfg : Cfg) (b : Bool) (w : World) :
+    ((runEntry cfg .pcall w).1 ≠ .raised .cancelled →
+      runEntry { cfg with isAsync := b } .pcall w = runEntry cfg .pcall w) ∧
+    ((runEntry cfg .pexecute w).1 ≠ .raised .cancelled →
+      runEntry { cfg with isAsync := b } .pexecute w = runEntry cfg .pexecute w) := by
+  constructor
+  · intro h
+    have hA : runEntry cfg .pcall w
+        = toRes (Policy.call cfg { w with trace := [], timeline := [], opCalls := 0 }) := rfl
+    have hA' : runEntry { cfg with isAsync := b } .pcall w
+        = toRes (Policy.call { cfg with isAsync := b } { w with trace := [], timeline := [], opCalls := 0 }) := rfl
+    rw [hA] at h
+    rw [hA, hA', policy_run_call, policy_run_call] at *
+    rcases callAdmitted_async cfg b _ with heq | ⟨w', hc⟩
+    · rw [heq]
+      cases Policy.callAdmitted cfg _ <;> rfl
+    · rw [hc] at h
+      exact absurd rfl h
+  · intro h
+    have hA : runEntry cfg .pexecute w = toResO (cfg.timeline && cfg.hasRetry)
+        (Policy.execute cfg { w with trace := [], timeline := [], opCalls := 0 }) := rfl
+    have hA' : runEntry { cfg with isAsync := b } .pexecute w = toResO (cfg.timeline && cfg.hasRetry)
+        (Policy.execute { cfg with isAsync := b } { w with trace := [], timeline := [], opCalls := 0 }) := rfl
+    rw [hA] at h
+    rw [hA, hA', policy_run_execute, policy_run_execute] at *
+    rcases executeAdmitted_async cfg b _ with heq | ⟨w', hc⟩
+    · rw [heq]
+      cases Policy.executeAdmitted cfg _ <;> rfl
+    · rw [hc] at h
+      exact absurd rfl h
+
+/-- an escaping `CancelledError` comes from the log: a call of any entry point that ends by raising
+    `CancelledError` has an exchange answered `raise cancelled` in its log (`Lemmas/SimCanc.lean`: the
+    library never raises it itself, `_RetryState.last_exc` never holds it) -/
+theorem cancelled_comes_from_log (cfg : Cfg) (e : Entry) (w : World)
+    (h : (runEntry cfg e w).1 = .raised .cancelled) : HasC (runEntry cfg e w).2.trace := by
+  have key : ∀ {α : Type} (x : M α) (w0 : World), NC JT none x →
+      ∀ w', x w0 = .error .cancelled w' → HasC w'.trace := by
+    intro α x w0 hx w' hw'
+    rcases (hx.run w0 trivial).2.2 w' hw' with h1 | h1
+    · exact h1
+    · cases h1
+  cases e with
+  | call =>
+    have hA : runEntry cfg .call w = toRes (runCall cfg { w with trace := [], timeline := [], opCalls := 0 }) := rfl
+    rw [hA] at h ⊢
+    cases hr : runCall cfg { w with trace := [], timeline := [], opCalls := 0 } with
+    | ok v w' => rw [hr] at h; cases h
+    | error e' w' =>
+      rw [hr] at h
+      injection h with h1
+      subst h1
+      exact key _ _ (runCall_nct cfg) w' hr
+  | execute =>
+    have hA : runEntry cfg .execute w
+        = toResO cfg.timeline (runExecute cfg { w with trace := [], timeline := [], opCalls := 0 }) := rfl
+    rw [hA] at h ⊢
+    cases hr : runExecute cfg { w with trace := [], timeline := [], opCalls := 0 } with
+    | ok v w' => rw [hr] at h; cases h
+    | error e' w' =>
+      rw [hr] at h
+      injection h with h1
+      subst h1
+      exact key _ _ (runExecute_nct cfg) w' hr
+  | pcall =>
+    have hA : runEntry cfg .pcall w
+        = toRes (Policy.call cfg { w with trace := [], timeline := [], opCalls := 0 }) := rfl
+    rw [hA] at h ⊢
+    cases hr : Policy.call cfg { w with trace := [], timeline := [], opCalls := 0 } with
+    | ok v w' => rw [hr] at h; cases h
+    | error e' w' =>
+      rw [hr] at h
+      injection h with h1
+      subst h1
+      exact key _ _ (call_ncp cfg) w' hr
+  | pexecute =>
+    have hA : runEntry cfg .pexecute w = toResO (cfg.timeline && cfg.hasRetry)
+        (Policy.execute cfg { w with trace := [], timeline := [], opCalls := 0 }) := rfl
+    rw [hA] at h ⊢
+    cases hr : Policy.execute cfg { w with trace := [], timeline := [], opCalls := 0 } with
+    | ok v w' => rw [hr] at h; cases h
+    | error e' w' =>
+      rw [hr] at h
+      injection h with h1
+      subst h1
+      exact key _ _ (execute_ncp cfg) w' hr
+
+/-- **T4 (policy level), as a statement about the log**: if no exchange of the run is answered
+    `raise CancelledError`, the sync and the async policy are the same function. -/
+theorem async_irrelevant_policy_log (cfg : Cfg) (b : Bool) (w : World) (e : Entry)
+    (he : e = .pcall ∨ e = .pexecute)
+    (hlog : ∀ x ∈ (runEntry cfg e w).2.trace, ∀ d, x.2 ≠ .raise .cancelled d) :
+    runEntry { cfg with isAsync := b } e w = runEntry cfg e w := by
+  have hne : (runEntry cfg e w).1 ≠ .raised .cancelled := by
+    intro h
+    obtain ⟨r, d, hm⟩ := cancelled_comes_from_log cfg e w h
+    exact hlog _ hm d rfl
+  rcases he with rfl | rfl
+  · exact (async_irrelevant_policy cfg b w).1 hne
+  · exact (async_irrelevant_policy cfg b w).2 hne
 
 /-! ### call() does not look at `capture_timeline`
 
